@@ -92,7 +92,7 @@ def gen_cases(rng, tier):
                     fam_b.append(mk_case(ni, no, nr, dm, s, iv, ov, rng.choice(USER_TEXTS), bot))
     if tier == "quick":
         rng.shuffle(fam_b)
-        fam_b = fam_b[:1800]
+        fam_b = fam_b[:1000]
     cases += fam_b
     # family C: dict form, absent `rails` key, no options at all
     n_c = 300 if tier == "quick" else 2000
@@ -356,9 +356,13 @@ def load_corpus():
 
 
 def run(tier, seed, replay=None):
+    import time
     out = C.Outcome(PID, tier, seed)
     rng = random.Random(seed * 1000003 + 16)
+    tm = {}
+    t0 = time.time()
     b = C.build_and_audit(PID, GEN)
+    tm["build_and_audit_s"] = round(time.time() - t0, 1)
     C.proof_coverage(out, b, "make theories/Props/C16.vo && coqc Props/C16.v (Print Assumptions)")
     for br in b["broken"]:
         out.add_broken(br, b["log"])
@@ -386,11 +390,15 @@ def run(tier, seed, replay=None):
             genlog_extra.append(r["plog"])
     else:
         cases += gen_cases(rng, tier)
+    # same configuration adjacent: a worker process reuses its LLMRails instance
+    cases.sort(key=lambda c: (c["n_in"], c["n_out"], c["n_ret"], c["dmode"]))
 
     # ---- end to end
+    t0 = time.time()
     obs_all, errs = D.run_shards(PID + "_e2e", "c16", cases, nproc=C.NPROC, timeout=1500) if cases else ([], [])
     for e in errs:
         out.add_broken("correspondence:C16-e2e(driver)", e)
+    tm["e2e_impl_s"] = round(time.time() - t0, 1)
     terms, kept = [], []
     seen = set()
     nontrivial = 0
@@ -445,6 +453,7 @@ def run(tier, seed, replay=None):
         kept.append((case, obs))
 
     disagree = []
+    t0 = time.time()
     if okm and terms:
         bools, err = C.run_cases(PID + "_e2e", PREAMBLE, terms, "check_turn", shard=150, timeout=1500)
         if err:
@@ -461,8 +470,10 @@ def run(tier, seed, replay=None):
         # a disagreement is a candidate: store it for the corpus of the next runs
         out.notes.append({"disagreement_case": case})
 
+    tm["e2e_model_s"] = round(time.time() - t0, 1)
     # ---- pure differential of compute_generation_log
-    n_gl = 0 if replay else (2500 if tier == "quick" else 25000)
+    t0 = time.time()
+    n_gl = 0 if replay else (2000 if tier == "quick" else 25000)
     plogs = list(genlog_extra) + [gen_plog(rng, real_logs[:400]) for _ in range(n_gl)]
     gl_res, gl_errs = D.run_shards(PID + "_gl", "genlog", plogs, nproc=C.NPROC, timeout=900) if plogs else ([], [])
     for e in gl_errs:
@@ -496,7 +507,9 @@ def run(tier, seed, replay=None):
                 out.add_broken("correspondence:C16-genlog",
                                f"{len(bad)} disagreements; smallest: plog={json.dumps(pl)} impl={json.dumps(r)} model={model[-1200:]}")
 
+    tm["genlog_s"] = round(time.time() - t0, 1)
     out.coverage.update({
+        "timings": tm,
         "evaluations": len(terms) + len(gl_terms),
         "distinct_nontrivial": nontrivial,
         "rule": "e2e: distinct by hash of the Coq case term (configuration, option form, verdict vectors, texts, observation); "
